@@ -4,9 +4,6 @@
     flags, first parameter iterable+optional}. *)
 From InvokeVerif Require Import Model.SigCtxModel Spec.C09Spec.
 
-Definition guard (s : tsig) : bool :=
-  wf_sig s && all_have_core s && no_steal s && no_inverse_clash s.
-
 Definition vocab : list string := ["a"; "b"; "ab"; "a_b"; "ab_c"; "_a"; "no_a"; "_"].
 Definition kinds : list pdefault :=
   [DEmpty; DNone; DStr "x"; DInt 5; DBool true; DBool false; DList []].
